@@ -21,6 +21,7 @@ def check(run):
     run.rule('NORM.rescan', 'min-max normalisation rescans the window for whichever cached extreme '
              'expired, re-seeding it from the sentinel, then folds in the current element')
     run.rule('NORM.formula', 'min-max closed form and its null guards')
+    add_rules(run, ['GATE.form', 'GATE.dom', 'GATE.intrinsic', 'GATE.K'])
     run.rule('ACC.exact', 'min / max / arg-extrema / rank kernels keep no arithmetic '
              'accumulator besides the validity count, so pre-window history cannot leak into '
              'them through rounding')
@@ -41,6 +42,12 @@ def check(run):
                        'captures %s' % sorted(caps))
             else:
                 acc.check_acc(run, m)
+            # prefix stability of the gate: an explicit min_periods must not be combined with
+            # anything that depends on the series length (GATE.form), and results are read
+            # only under the gate on the window's own count (GATE.dom)
+            if any(b['name'] == 'min_periods' for p_ in k.fn.params for b in _pat_binds(p_)):
+                from C01 import expected_K
+                acc.check_gate(run, m, expected_K(k.name))
             if k.fn.file.endswith('cmp.rs'):
                 m.classify()
                 arith = [a['name'] for a in m.accumulators().values()
